@@ -133,6 +133,11 @@ func updatedLeaves(u proofUpdater, limit uint64) map[uint64]bool {
 // update, limit excludes elements the update must not be given (leaf >= limit),
 // forest is the reference forest of the state the update leads to.
 func (e *env) compareUpdate(what string, u, u2 proofUpdater, elems []tracked, limit uint64, forest *spec.Forest, report func(sig, desc string)) {
+	e.compareUpdateOpt(what, u, u2, elems, limit, false, forest, report)
+}
+
+// compareUpdateOpt: with includeNew the elements at or beyond limit (created by the block itself) are refreshed too.
+func (e *env) compareUpdateOpt(what string, u, u2 proofUpdater, elems []tracked, limit uint64, includeNew bool, forest *spec.Forest, report func(sig, desc string)) {
 	c := e.c
 	// (1) diffs deep-equal
 	for _, p := range []struct {
@@ -188,7 +193,7 @@ func (e *env) compareUpdate(what string, u, u2 proofUpdater, elems []tracked, li
 		c.Count("updates:blocks_with_updated_leaves", 1)
 	}
 	for _, t := range elems {
-		if t.se.LeafIndex >= limit {
+		if t.se.LeafIndex >= limit && !includeNew {
 			continue
 		}
 		a, b := copySE(t.se), copySE(t.se)
@@ -272,6 +277,16 @@ func (e *env) checkTip(w *chain.World, report func(sig, desc string)) {
 		fo := w.Forest.Clone()
 		fo.Build()
 		e.compareUpdate("ApplyUpdate", a.AU, au2, allTracked(a.Snap.Store), a.PrevCS.Elements.NumLeaves, &fo, report)
+		// elements CREATED by this block: a wallet adds them and then refreshes everything it tracks with the same
+		// update, which must leave them untouched - for the round-tripped update as well
+		var created []tracked
+		for _, t := range allTracked(w.Store) {
+			if t.se.LeafIndex >= a.PrevCS.Elements.NumLeaves {
+				created = append(created, t)
+			}
+		}
+		c.Count("updates:created_elements_refreshed", int64(len(created)))
+		e.compareUpdateOpt("ApplyUpdate", a.AU, au2, created, a.PrevCS.Elements.NumLeaves, true, &fo, report)
 		// idempotence of the JSON form
 		if js2, err := json.Marshal(au2); err != nil || string(js2) != string(js) {
 			report("consensus.ApplyUpdate|json round trip|re-marshalled form differs", fmt.Sprint(err))
